@@ -218,10 +218,9 @@ Definition hub_init (ncaches size : nat) : hub :=
 Definition cache_index (h : hub) (ck : bytes) : nat :=
   N.to_nat (fnv32a ck mod N.of_nat (List.length (caches h))).
 Fixpoint upd_nth {A} (i : nat) (x : A) (l : list A) : list A :=
-  match l, i with
-  | [], _ => []
-  | _ :: r, O => x :: r
-  | y :: r, S j => y :: upd_nth j x r
+  match l with
+  | [] => []
+  | y :: r => match i with 0%nat => x :: r | S j => y :: upd_nth j x r end
   end.
 Definition with_cache (h : hub) (i : nat) (c : lru) : hub :=
   {| caches := upd_nth i c (caches h); csize := csize h; sessions := sessions h |}.
